@@ -1221,6 +1221,20 @@ impl<'a> Gen<'a> {
                 if matches!(a, Tok::Int(_)) && self.rng.chance(4, 5) {
                     a = Tok::Id(self.rng.pick(PLAIN).to_string());
                 }
+                // a paste that makes the name of a macro of the program (the merged token is read again)
+                let made: Option<(&str, Tok)> = self.macros.iter().find_map(|m| match m.name.as_str() {
+                    "PQ" => Some(("P", Tok::Id("Q".into()))),
+                    "P1" => Some(("P", Tok::Int("1".into()))),
+                    _ => None,
+                });
+                let mut forced_right = None;
+                if let Some((l, r)) = made {
+                    if self.rng.chance(1, 2) {
+                        a = Tok::Id(l.to_string());
+                        forced_right = Some(r);
+                        self.hist.add("body:paste-makes-a-macro-name");
+                    }
+                }
                 out.push(a);
                 if self.rng.chance(1, 2) {
                     out.push(Tok::Ws);
@@ -1229,7 +1243,10 @@ impl<'a> Gen<'a> {
                 if self.rng.chance(1, 2) {
                     out.push(Tok::Ws);
                 }
-                let b = self.paste_operand(params);
+                let b = match forced_right {
+                    Some(r) => r,
+                    None => self.paste_operand(params),
+                };
                 out.push(b);
                 budget -= 3;
                 self.hist.add("body:paste");
@@ -1416,7 +1433,7 @@ fn generate(rng: &mut Rng, hist: &mut Hist) -> Vec<Program> {
         // now and then a macro whose name can be made by `##` (`A ## B`, `P ## 1`): the merged token is read again
         let name = if i + 1 == nmac && rng.chance(1, 4) {
             hist.add("macro:name-that-a-paste-can-make");
-            rng.pick(&["AB", "P1"]).to_string()
+            rng.pick(&["PQ", "P1"]).to_string()
         } else {
             MACRO_NAMES[i].to_string()
         };
